@@ -38,6 +38,8 @@ func c18ip(i int) string   { return fmt.Sprintf("10.0.0.%d", i+1) }
 func c18addr(i int) string { return "tcp://" + c18ip(i) + ":9502" }
 
 type c18Cluster struct {
+	onlyIO      bool              // the configuration consists of data-path calls only (W, R, SF, WF)
+	initialRW   map[int]bool      // nodes that were RW when the operations started
 	curOp       map[string]string // scheduler thread -> the call it is executing
 	late        []string          // requests a controller operation sent to a replica that was not a member at that moment
 	c           *controller.Controller
@@ -55,6 +57,8 @@ type c18Cluster struct {
 	releaseSlow bool
 	slowParked  int
 	failWrites  map[int]int  // op WF<i>: payload byte -> node+1 on which that write fails
+	failSync    map[int]bool // op SF<i>: flushes fail on these nodes from now on
+	blamed      []string     // SF: who must have left / must still be in service (evaluated with the invariants)
 	failReads   map[int]bool // op RF: reads fail on these nodes (the replicas that were RW when the cluster was built)
 }
 
@@ -124,6 +128,9 @@ func (x c18IOs) ReadAt(b []byte, off int64) (int, error) {
 	return x.n.ReadAt(b, off)
 }
 func (x c18IOs) Sync() (int, error) {
+	if x.cl.failSync[x.node] {
+		return -1, fmt.Errorf("injected flush failure on node %d", x.node+1)
+	}
 	if q := x.cl.q; q != nil {
 		if err := q.reach(x.cl, x.node, "S", 0, 0); err != nil {
 			return -1, err
@@ -387,6 +394,23 @@ func (cl *c18Cluster) op(name string) string {
 		// the replica process restarts (its data stays) and is ready for a fresh add
 		cl.nodes[idx()].Restart()
 		return name + ":done"
+	case strings.HasPrefix(name, "SF"):
+		// a flush that fails on node <i> (and only there): the volume stays writable, that replica - and no other - leaves
+		if cl.failSync == nil {
+			cl.failSync = map[int]bool{}
+		}
+		cl.failSync[idx()] = true
+		n, err := c.Sync()
+		failed := idx()
+		var rwBefore []int
+		for i := range cl.nodes {
+			if cl.nodes[i].View().Mode == "RW" {
+				rwBefore = append(rwBefore, i)
+			}
+		}
+		_ = rwBefore
+		cl.blamed = append(cl.blamed, fmt.Sprint(failed))
+		return fmt.Sprintf("%s:n=%d,%s", name, n, e(err))
 	case strings.HasPrefix(name, "WF"):
 		// a write of block 1 whose data call fails on node <i> (the failure belongs to this write only: it is keyed by
 		// the payload)
@@ -535,6 +559,31 @@ func (cl *c18Cluster) invariants() []string {
 	for _, l := range cl.late {
 		out = append(out, "removed-replica-called: "+l)
 	}
+	if len(cl.blamed) > 0 && cl.onlyIO {
+		// flushes failed on exactly the nodes in cl.blamed and nothing else touched the membership: those replicas - and
+		// no other - have left the service
+		failed := map[int]bool{}
+		for _, b := range cl.blamed {
+			var i int
+			fmt.Sscan(b, &i)
+			failed[i] = true
+		}
+		listed := map[int]types.Mode{}
+		for _, r := range v.Replicas {
+			var n int
+			fmt.Sscanf(r.Address, "tcp://10.0.0.%d:9502", &n)
+			listed[n-1] = r.Mode
+		}
+		for i := range cl.initialRW {
+			m, ok := listed[i]
+			if failed[i] && ok && m == types.RW {
+				out = append(out, fmt.Sprintf("failed-replica-in-service: node %d failed the flush but is still RW", i+1))
+			}
+			if !failed[i] && (!ok || m != types.RW) {
+				out = append(out, fmt.Sprintf("healthy-replica-detached: node %d did not fail any call but is no longer RW (flush failures were injected on %v)", i+1, cl.blamed))
+			}
+		}
+	}
 	seen := map[string]bool{}
 	wo, rw := 0, 0
 	for _, r := range v.Replicas {
@@ -584,6 +633,22 @@ func c18Run(cfg *C18Cfg, ch vs.Chooser, trace bool, order []string) (string, *vs
 		vs.NoChoice(order != nil)
 		results := make([]string, len(cfg.Ops))
 		// an op is one call or a '+'-separated sequence of calls run by one thread (e.g. "WF2+Restart2+Add2")
+		cl.onlyIO = true
+		for _, o := range cfg.Ops {
+			for _, call := range strings.Split(o, "+") {
+				if !(strings.HasPrefix(call, "W") || call == "R" || strings.HasPrefix(call, "SF") || strings.HasPrefix(call, "RF")) {
+					cl.onlyIO = false
+				}
+			}
+		}
+		cl.initialRW = map[int]bool{}
+		for _, r := range cl.c.VerifView().Replicas {
+			if r.Mode == types.RW {
+				var n int
+				fmt.Sscanf(r.Address, "tcp://10.0.0.%d:9502", &n)
+				cl.initialRW[n-1] = true
+			}
+		}
 		released := make([]int, len(cfg.Ops))
 		start := func(k int) {
 			calls := strings.Split(cfg.Ops[k], "+")
@@ -876,6 +941,10 @@ func c02Configs(tier string) []C18Cfg {
 	for _, p := range [][]string{{"W0", "Ver2+RbOff2"}, {"WF1", "Ver2+RbOff2"}, {"WF2", "Ver2+RbOff2"}, {"W0", "RW2"}, {"WF1", "RW2"}, {"WF2", "Rm1"}, {"WF0", "Mon2"}} {
 		add("rw2wo", p...)
 	}
+	// a flush failing on one replica, in every position of the writer list, alone and against a write / a read
+	for _, p := range [][]string{{"SF0"}, {"SF1"}, {"SF2"}, {"SF0", "W0"}, {"SF1", "W0"}, {"SF2", "R"}, {"SF1", "SF1"}} {
+		add("rw3", p...)
+	}
 	if tier == "thorough" {
 		add("rw3", "WF1", "Err2", "W0")
 		add("rw2wo", "WF1", "Ver2+RbOff2", "W0")
@@ -918,6 +987,10 @@ func c05ConcConfigs(tier string) []C18Cfg {
 		add("rw2wo", p...)
 	}
 	for _, p := range [][]string{{"WF1", "Mon1"}, {"WF1", "Rm1"}, {"WF1", "Err1"}, {"Mon1", "Err1"}, {"WF1", "R"}, {"Mon1", "R"}} {
+		add("rw3", p...)
+	}
+	// a flush failing on one replica (every position of the writer list): that replica and no other leaves
+	for _, p := range [][]string{{"SF0"}, {"SF1"}, {"SF2"}, {"SF0", "W0"}, {"SF2", "W0"}, {"SF1", "R"}} {
 		add("rw3", p...)
 	}
 	if tier == "thorough" {
